@@ -1,6 +1,7 @@
 package concurrentbatchprocessor
 
 import (
+	"errors"
 	"context"
 	"sync"
 	"time"
@@ -240,4 +241,80 @@ func VerifHarness_C06_export_notify() {
 	}
 	rt.Assert(len(next.exports) == 1 && len(next.exports[0].ids) == 2, "C06.export_notify.one_export_of_both")
 	rt.Assert(verifLeaked() == 0, "C11.export_notify.no_goroutine_left")
+}
+
+// VerifHarness_C06_cancel_queued: max_concurrency 1 and a gated (stalled) export holding the slot, so the shard
+// goroutine is blocked and its input channel (capacity NUMCPU) fills up: some callers are queued, the others are
+// parked on the full channel (or, with early_return off, waiting for their responses). Then a symbolic subset of
+// the caller contexts is cancelled while the downstream is STILL stalled. C06: a caller whose context ended
+// returns promptly with the context error - it must not wait for the downstream; its items are delivered at
+// most once. Callers whose context is alive and who had not returned must not be affected.
+func VerifHarness_C06_cancel_queued() {
+	callers := rt.Param("CALLERS")
+	early := rt.Bool("early")
+	next := &verifNext{gate: make(chan struct{})}
+	bp := verifNewProcessor(next, &verifTracer{}, 1, 0, 0, early, nil, 0, 1)
+	if bp == nil {
+		return
+	}
+	_ = bp.Start(context.Background(), nil)
+	results := make([]error, callers)
+	done := make([]bool, callers)
+	cancels := make([]context.CancelFunc, callers)
+	var wg sync.WaitGroup
+	for c := 0; c < callers; c++ {
+		ctx, cancel := context.WithCancel(context.Background())
+		cancels[c] = cancel
+		wg.Add(1)
+		go func(c int, ctx context.Context) {
+			defer wg.Done()
+			results[c] = bp.ConsumeTraces(ctx, verifTraces(int64(100*(c+1)), 1))
+			done[c] = true
+		}(c, ctx)
+	}
+	rt.Quiesce() // first export at the gate, shard on the slot, callers queued / parked / waiting
+	doneBefore := make([]bool, callers)
+	cancelled := make([]bool, callers)
+	for c := 0; c < callers; c++ {
+		doneBefore[c] = done[c]
+		cancelled[c] = rt.Bool("cancel")
+	}
+	for c := 0; c < callers; c++ {
+		if cancelled[c] {
+			cancels[c]()
+		}
+	}
+	rt.Quiesce() // the downstream is still stalled and no virtual time passes
+	for c := 0; c < callers; c++ {
+		if cancelled[c] {
+			rt.Assert(done[c], "C06.cancel_queued.returns_promptly")
+			if done[c] && !doneBefore[c] {
+				rt.Assert(results[c] != nil && errors.Is(results[c], context.Canceled), "C06.cancel_queued.context_error")
+			}
+		} else if !doneBefore[c] {
+			rt.Assert(!done[c], "C06.cancel_queued.live_caller_not_released_early")
+		}
+	}
+	var sd sync.WaitGroup
+	sd.Add(1)
+	go func() { defer sd.Done(); _ = bp.Shutdown(context.Background()) }()
+	close(next.gate)
+	sd.Wait()
+	wg.Wait()
+	seen := map[int64]int{}
+	for _, e := range next.exports {
+		for _, id := range e.ids {
+			seen[id]++
+		}
+	}
+	for c := 0; c < callers; c++ {
+		id := int64(100 * (c + 1))
+		rt.Assert(seen[id] <= 1, "C06.cancel_queued.at_most_once")
+		if results[c] == nil {
+			rt.Assert(seen[id] == 1, "C06.cancel_queued.nil_means_exported")
+		}
+	}
+	for _, cancel := range cancels {
+		cancel()
+	}
 }
